@@ -60,6 +60,13 @@ HEADINGS = ["# **All bold**", "## ***Bold italic***", "### **Partly** bold", "# 
             "*__Setext bold__ more*\n---", "# _**x**_", "# **_x_**", "# *`code` **b***"]
 
 
+# every ordered pair of heading pieces (bold, bold-italic, italic, text, bare punctuation, code, link): a heading is "entirely bold" only if
+# nothing at all stands beside the bold span
+_PIECES = ["**B**", "***BI***", "*I*", "text", ":", " :", ".", " -", "!", "`c`", "[l](u)", "__U__", "\\*", "&amp;", "**C** "]
+HEADINGS += ["# " + a + b for a in _PIECES for b in _PIECES if (a + b).strip() and not (a + b).startswith(" ")]
+HEADINGS += [(a + b).strip() + "\n===" for a in _PIECES[:6] for b in _PIECES[:9] if (a + b).strip() and not (a + b).lstrip().startswith(("-", "=", ":", ".", "!"))]
+
+
 def gen_heading_doc(rng) -> str:
     parts = []
     for _ in range(rng.randint(1, 5)):
@@ -141,6 +148,8 @@ def run(chk: Check) -> None:
     n = 1 if tier == "quick" else 10
     # ---- (a) cleanups ----
     docs = [gen_heading_doc(rng) for _ in range(150 * n)]
+    # every heading of the vocabulary at least once, eight to a document (deterministic coverage of the heading shapes)
+    docs += ["\n\n".join(HEADINGS[i:i + 8]) + "\n" for i in range(0, len(HEADINGS), 8)]
     gen_docs.AVOID = set(c02.AVOID_MAIN)
     docs += [gen_docs.gen_doc(rng) for _ in range(150 * n)]
     gen_docs.AVOID = set()
